@@ -204,6 +204,11 @@ class Function:
             return a.idx <= b.idx
         return self.bdominates(a.block, b.block)
 
+    def edge_dominates(self, term, succ_block, target):
+        """every path from the entry to instruction `target` traverses the CFG edge (term -> succ_block)"""
+        r = self.reach([self.entry()], cut_edges={(term.id, succ_block)}, include_start=True)
+        return target.id not in r
+
     def dom_or_loop(self, a, b):
         """a dominates b, or a sits in a loop (e.g. `for each level`) whose header dominates b while b is outside
         that loop: a is executed for every iteration the loop makes before control can reach b"""
